@@ -114,3 +114,18 @@ example : parseFault envR [0x5b, 0x31, 0x2c, 0x5d] = .err .TrailingComma 4 := rf
 example : parseFault envR [0x5b, 0x31, 0x2c] = .io := rfl
 
 end SJ.Props.C13
+
+namespace SJ.Props.C13
+open SJ.Gen
+/-- **C13 (`impl From<serde_json::Error> for io::Error`).** As regenerated from `src/error.rs` on every run: converting an
+    error back into an `io::Error` returns the wrapped `io::Error` itself for the `Io` category (so the reader's or writer's
+    own `ErrorKind` survives the round trip through `serde_json::Error`), `InvalidData` for `Syntax` and `Data`, and
+    `UnexpectedEof` for `Eof`. A change of any arm changes a generated constant and breaks this theorem. -/
+theorem c13_into_io_error :
+    intoIoKeepsInner = true ∧
+    intoIoKind .syntax = some [0x49, 0x6e, 0x76, 0x61, 0x6c, 0x69, 0x64, 0x44, 0x61, 0x74, 0x61] ∧   -- "InvalidData"
+    intoIoKind .data = some [0x49, 0x6e, 0x76, 0x61, 0x6c, 0x69, 0x64, 0x44, 0x61, 0x74, 0x61] ∧
+    intoIoKind .eof = some [0x55, 0x6e, 0x65, 0x78, 0x70, 0x65, 0x63, 0x74, 0x65, 0x64, 0x45, 0x6f, 0x66] ∧   -- "UnexpectedEof"
+    intoIoKind .io = none := by
+  exact ⟨rfl, rfl, rfl, rfl, rfl⟩
+end SJ.Props.C13
